@@ -7,6 +7,16 @@ import Nebula.Spec.IP
 namespace Nebula.Lemmas.PktParse
 open Nebula.Pkt Nebula.Spec.IP
 
+/-- the regenerated case lists are the ones the proofs are about (fails to elaborate if the source changes them) -/
+theorem mem_tlv (nh : Nat) : nh ∈ tlvTypes ↔ (nh = 0 ∨ nh = 43 ∨ nh = 60) := by
+  simp [tlvTypes, Gen.iputil_extHeaderWalkCases]
+theorem mem_frag (nh : Nat) : nh ∈ fragTypes ↔ nh = 44 := by
+  simp [fragTypes, Gen.iputil_extHeaderWalkCases]
+theorem mem_ah (nh : Nat) : nh ∈ ahTypes ↔ nh = 51 := by
+  simp [ahTypes, Gen.iputil_extHeaderWalkCases]
+theorem mem_after (nh : Nat) : nh ∈ afterLoopTypes ↔ (nh = 0 ∨ nh = 43 ∨ nh = 44 ∨ nh = 51 ∨ nh = 60) := by
+  simp [afterLoopTypes, Gen.iputil_extHeaderAfterLoopCases]
+
 @[simp] theorem ok_bind {α β : Type} (a : α) (f : α → Res β) : (Res.ok a >>= f) = f a := rfl
 @[simp] theorem err_bind {α β : Type} (e : Err) (f : α → Res β) : (Res.err e >>= f) = Res.err e := rfl
 @[simp] theorem panic_bind {α β : Type} (f : α → Res β) : (Res.panic >>= f) = Res.panic := rfl
@@ -38,13 +48,13 @@ theorem loop_no_panic (d : List UInt8) : ∀ fuel nh off af, findUpperLoop d fue
   induction fuel with
   | zero =>
     intro nh off af
-    simp only [findUpperLoop]
+    simp only [findUpperLoop, mem_tlv, mem_frag, mem_ah, mem_after]
     split
     · simp
     · split <;> simp
   | succ n ih =>
     intro nh off af
-    simp only [findUpperLoop]
+    simp only [findUpperLoop, mem_tlv, mem_frag, mem_ah, mem_after]
     split
     · split
       · simp
@@ -67,14 +77,14 @@ theorem loop_ok_off_le (d : List UInt8) (fuel nh off : Nat) (af : Bool) (w : V6W
     (h : findUpperLoop d fuel nh off af = .ok w) : off ≤ d.length := by
   cases fuel with
   | zero =>
-    simp only [findUpperLoop] at h
+    simp only [findUpperLoop, mem_tlv, mem_frag, mem_ah, mem_after] at h
     split at h
     · simp at h
     · split at h
       · simp at h
       · omega
   | succ n =>
-    simp only [findUpperLoop] at h
+    simp only [findUpperLoop, mem_tlv, mem_frag, mem_ah, mem_after] at h
     split at h
     · split at h
       · simp at h
@@ -140,13 +150,13 @@ theorem walk_term (sf nh : Nat) (rest : List UInt8) (off : Nat) (af : Bool) (k :
 theorem loop_walk (d : List UInt8) : ∀ (fuel nh off : Nat) (af : Bool) (k sf : Nat) (w : V6Walk),
     d.length - off < sf →
     findUpperLoop d fuel nh off af = .ok w →
-    ∃ k', walk sf nh (d.drop off) off af k = .resolved w.nh w.off w.isFrag w.anyFrag (d.drop w.off) k' := by
+    ∃ k', walk sf nh (d.drop off) off af k = .resolved w.nh w.off w.isFrag w.anyFrag (d.drop w.off) k' ∧ k' ≤ k + fuel := by
   intro fuel
   induction fuel with
   | zero =>
     intro nh off af k sf w hsf h
     obtain ⟨sf', rfl⟩ : ∃ s, sf = s + 1 := ⟨sf - 1, by omega⟩
-    simp only [findUpperLoop] at h
+    simp only [findUpperLoop, mem_tlv, mem_frag, mem_ah, mem_after] at h
     split at h
     · simp at h
     · split at h
@@ -154,11 +164,11 @@ theorem loop_walk (d : List UInt8) : ∀ (fuel nh off : Nat) (af : Bool) (k sf :
       · rename_i hne _
         simp only [Res.ok.injEq] at h
         subst h
-        exact ⟨k, walk_term _ _ _ _ _ _ (by omega) (by omega) (by omega)⟩
+        exact ⟨k, walk_term _ _ _ _ _ _ (by omega) (by omega) (by omega), by omega⟩
   | succ n ih =>
     intro nh off af k sf w hsf h
     obtain ⟨sf', rfl⟩ : ∃ s, sf = s + 1 := ⟨sf - 1, by omega⟩
-    simp only [findUpperLoop] at h
+    simp only [findUpperLoop, mem_tlv, mem_frag, mem_ah, mem_after] at h
     split at h
     · rename_i hA
       split at h
@@ -171,7 +181,7 @@ theorem loop_walk (d : List UInt8) : ∀ (fuel nh off : Nat) (af : Bool) (k sf :
           rw [drop_cons d off (by omega), drop_cons d (off+1) (by omega)]
         simp only [byte_eq_getElem d off (by omega), byte_eq_getElem d (off+1) (by omega)] at h hle
         rw [walk_tlv sf' nh _ off af k hA _ _ _ hr (by simp; omega), List.drop_drop]
-        exact ih _ _ _ _ _ _ (by omega) h
+        (obtain ⟨k', e1, e2⟩ := ih _ _ _ (k + 1) sf' _ (by omega) h; exact ⟨k', e1, by omega⟩)
     · split at h
       · rename_i hA
         subst hA
@@ -197,7 +207,7 @@ theorem loop_walk (d : List UInt8) : ∀ (fuel nh off : Nat) (af : Bool) (k sf :
               · omega
               · have := mt hf8.2 h1; omega
             rw [if_pos this]
-            exact ⟨_, rfl⟩
+            exact ⟨_, rfl, by omega⟩
           · rename_i hfr
             have : ¬ ((d[off+2]'(by omega)).toNat * 32 + (d[off+3]'(by omega)).toNat / 8 ≠ 0) := by
               have h1 : (d[off+2]'(by omega)).toNat = 0 := by
@@ -208,7 +218,7 @@ theorem loop_walk (d : List UInt8) : ∀ (fuel nh off : Nat) (af : Bool) (k sf :
               omega
             rw [if_neg this]
             have hle := loop_ok_off_le _ _ _ _ _ _ h
-            exact ih _ _ _ _ _ _ (by omega) h
+            (obtain ⟨k', e1, e2⟩ := ih _ _ _ (k + 1) sf' _ (by omega) h; exact ⟨k', e1, by omega⟩)
       · split at h
         · rename_i hA
           split at h
@@ -221,13 +231,13 @@ theorem loop_walk (d : List UInt8) : ∀ (fuel nh off : Nat) (af : Bool) (k sf :
               rw [drop_cons d off (by omega), drop_cons d (off+1) (by omega)]
             simp only [byte_eq_getElem d off (by omega), byte_eq_getElem d (off+1) (by omega)] at h hle
             rw [walk_ah sf' nh _ off af k hA _ _ _ hr (by simp; omega), List.drop_drop]
-            exact ih _ _ _ _ _ _ (by omega) h
+            (obtain ⟨k', e1, e2⟩ := ih _ _ _ (k + 1) sf' _ (by omega) h; exact ⟨k', e1, by omega⟩)
         · split at h
           · simp at h
           · simp only [Res.ok.injEq] at h
             subst h
             rename_i h1 h2 h3 _
-            exact ⟨k, walk_term _ _ _ _ _ _ h1 h2 h3⟩
+            exact ⟨k, walk_term _ _ _ _ _ _ h1 h2 h3, by omega⟩
 
 
 /-- the classification reported by the model, as the specification's record -/
@@ -244,7 +254,7 @@ theorem loop_ok_shape (d : List UInt8) : ∀ (fuel nh off : Nat) (af : Bool) (w 
   induction fuel with
   | zero =>
     intro nh off af w h
-    simp only [findUpperLoop] at h
+    simp only [findUpperLoop, mem_tlv, mem_frag, mem_ah, mem_after] at h
     split at h
     · simp at h
     · split at h
@@ -255,7 +265,7 @@ theorem loop_ok_shape (d : List UInt8) : ∀ (fuel nh off : Nat) (af : Bool) (w 
         simp [isExtHeader]; omega
   | succ n ih =>
     intro nh off af w h
-    simp only [findUpperLoop] at h
+    simp only [findUpperLoop, mem_tlv, mem_frag, mem_ah, mem_after] at h
     split at h
     · split at h
       · simp at h
@@ -309,19 +319,22 @@ def pkt6 (d : List UInt8) (w : V6Walk) (k : Nat) : Spec.IP.Pkt :=
   { version := 6, src := (d.drop 8).take 16, dst := (d.drop 24).take 16, proto := w.nh,
     hdrLen := w.off, nonFirstFrag := w.isFrag, anyFrag := w.anyFrag, upper := d.drop w.off, nExt := k }
 
-theorem findUpper_spec (d : List UInt8) (w : V6Walk) (h : findUpper d = .ok w) :
-    ∃ k, parse6 d = some (pkt6 d w k) := by
+theorem findUpper_spec_le (d : List UInt8) (w : V6Walk) (h : findUpper d = .ok w) :
+    ∃ k, parse6 d = some (pkt6 d w k) ∧ k ≤ maxIPv6ExtHeaders := by
   simp only [findUpper] at h
   split at h
   · simp at h
   · rename_i hlen
     rw [idx_eq d 6 (by omega)] at h
     simp only [ok_bind] at h
-    obtain ⟨k, hk⟩ := loop_walk d _ _ _ _ 0 ((d.drop 40).length + 1) w (by simp) h
-    refine ⟨k, ?_⟩
+    obtain ⟨k, hk, hle⟩ := loop_walk d _ _ _ _ 0 ((d.drop 40).length + 1) w (by simp) h
+    refine ⟨k, ?_, by omega⟩
     simp only [parse6, if_neg hlen, hk, pkt6]
 
-
+theorem findUpper_spec (d : List UInt8) (w : V6Walk) (h : findUpper d = .ok w) :
+    ∃ k, parse6 d = some (pkt6 d w k) := by
+  obtain ⟨k, hk, _⟩ := findUpper_spec_le d w h
+  exact ⟨k, hk⟩
 
 theorem parseV6_no_panic (d : List UInt8) (inc : Bool) : parseV6 d inc ≠ .panic := by
   simp only [parseV6]
